@@ -148,6 +148,8 @@ var registerModel = porcupine.Model{
 			return out.found == st.found && (!st.found || out.val == st.val), st
 		case "has":
 			return out.found == st.found, st
+		case "write":
+			return true, st // flushing the overlay into the parent does not change what the wrapper shows
 		}
 		return false, st
 	},
@@ -209,6 +211,8 @@ func executeConc(tr *Trace) (*core.Result, error) {
 						store.Set(unhexp(op.Key), unhexp(op.Val))
 					case "del":
 						store.Delete(unhexp(op.Key))
+					case "write":
+						store.Write()
 					}
 				}()
 				s.seq++
@@ -280,6 +284,46 @@ func executeConc(tr *Trace) (*core.Result, error) {
 	}
 	s.active = false
 	s.cur = -1
+	// closing reads by the harness, after every client has finished: a completed Set/Delete must still be visible
+	// (nothing may have been dropped by a concurrent Write), and once more after a final Write through the parent
+	closing := func(client int) {
+		seenKey := map[string]bool{}
+		var keys []string
+		for _, prog := range tr.Clients {
+			for _, op := range prog {
+				if op.Key != nil && !seenKey[*op.Key] {
+					seenKey[*op.Key] = true
+					keys = append(keys, *op.Key)
+				}
+			}
+		}
+		sort.Strings(keys)
+		for _, kh := range keys {
+			k, _ := hex.DecodeString(kh)
+			h := histOp{client: client, kind: "get", key: string(k)}
+			s.seq++
+			h.call = s.seq
+			func() {
+				defer func() {
+					if r := recover(); r != nil {
+						h.kind = "panic"
+						h.val = fmt.Sprint(r)
+					}
+				}()
+				v := store.Get(k)
+				h.val, h.found = string(v), v != nil
+			}()
+			s.seq++
+			h.ret = s.seq
+			hist = append(hist, h)
+		}
+	}
+	closing(nc + 1)
+	func() {
+		defer func() { recover() }()
+		store.Write()
+	}()
+	closing(nc + 2)
 	res.Stats.C("schedules", 1)
 	res.Stats.C("scheduler_choices", int64(len(schedule)))
 	res.Stats.C("client_ops", int64(len(hist)))
